@@ -139,9 +139,9 @@ def atof64exact (mantissa : Nat) (exp : Int) (neg : Bool) : Option Nat :=
     let sgn := Spec.signBit neg
     if exp == 0 then some (sgn + f)
     else if exp > 0 && exp ≤ 15 + 22 then
-      let (f, exp) := if exp > 22 then (fmulAbs f (float64pow10 (exp - 22).toNat), (22 : Int)) else (f, exp)
-      if fgtAbs f (float64pow10 15) then none
-      else some (sgn + fmulAbs f (float64pow10 exp.toNat))
+      let fe : Nat × Int := if exp > 22 then (fmulAbs f (float64pow10 (exp - 22).toNat), (22 : Int)) else (f, exp)
+      if fgtAbs fe.1 (float64pow10 15) then none
+      else some (sgn + fmulAbs fe.1 (float64pow10 fe.2.toNat))
     else if exp < 0 && exp ≥ -22 then some (sgn + fdivAbs f (float64pow10 (-exp).toNat))
     else none
 
